@@ -304,6 +304,7 @@ Section Main.
   Qed.
 
   Section Tokens.
+  Context {fx : FxEscape}.
   Variable gbk : list N -> Z.
 
   (* a short string without escape and line end *)
